@@ -209,7 +209,8 @@ func runC10(c *eng.Ctx) {
 			{"index.invertedIndex.getSeriesIDs", eng.CallTo("index.invertedIndex.findSeriesIDsByKeyFromMem"), "findSeriesIDsByKeyFromMem", invokeOn("", "Load"), "snapshot.Load", "index.invertedIndex"},
 			{"index.invertedIndex.findSeriesIDsByKeys", eng.CallTo("index.invertedIndex.findSeriesIDsByKeyFromMem"), "findSeriesIDsByKeyFromMem", invokeOn("", "Load"), "snapshot.Load", "index.invertedIndex"},
 			{"index.forwardIndex.findSeriesIDsForTag", eng.CallTo("index.forwardIndex.loadSeriesIDsInMem"), "loadSeriesIDsInMem", invokeOn("", "FindReaders"), "snapshot.FindReaders", "index.forwardIndex"},
-			{"index.forwardIndex.getGroupingScanners", eng.CallTo("index.forwardIndex.loadSeriesIDsInMem"), "loadSeriesIDsInMem", invokeOn("", "FindReaders"), "snapshot.FindReaders", "index.forwardIndex"},
+			{"index.forwardIndex.GetGroupingContext", eng.CallTo("index.forwardIndex.getMemGroupingScanners"), "getMemGroupingScanners", eng.CallTo("index.forwardIndex.getGroupingScanners"), "getGroupingScanners(snapshot)", "index.forwardIndex"},
+			{"index.forwardIndex.getGroupingScanners", nil, "memory scanners passed in", invokeOn("", "FindReaders"), "snapshot.FindReaders", ""},
 			{kvs + ".GetValues", eng.CallTo(kvs + ".getValuesFromMem"), "getValuesFromMem", invokeOn("", "GetBucket"), "reader.GetBucket", kvs},
 			{kvs + ".findValue", eng.CallTo(kvs + ".GetValue"), "GetValue -> getOrCreateValue (memory+persisted lookup, C09)", eng.CallTo(kvs + ".GetValue"), "GetValue", ""},
 			{kvs + ".FindValuesByRegexp", eng.CallTo(kvs + ".findValuesByRegexp"), "findValuesByRegexp(mem)", invokeOn("", "GetBucket"), "reader.GetBucket", kvs},
@@ -225,10 +226,10 @@ func runC10(c *eng.Ctx) {
 				continue
 			}
 			// persisted part on every success path (unless an earlier tier already answered: GetSchema returns on a hit)
-			per := p.Sites(f, r.persisted)
+			per := p.SitesInl(f, r.persisted)
 			c.Check(len(per) > 0, "persisted:"+r.fn, nil, f, r.fn+" consults the persisted store ("+r.perName+")", "no "+r.perName+" call")
 			if r.mem != nil {
-				ms := p.Sites(f, r.mem)
+				ms := p.SitesInl(f, r.mem)
 				c.Check(len(ms) > 0, "memory:"+r.fn, nil, f, r.fn+" consults the memory stores ("+r.memName+")", "no "+r.memName+" call")
 				// neither part may be skipped on a path that returns a (possibly empty) success, except after a hit
 				if len(ms) > 0 && len(per) > 0 && !strings.HasSuffix(r.fn, ".GetSchema") && !strings.HasSuffix(r.fn, ".findValue") {
@@ -247,8 +248,8 @@ func runC10(c *eng.Ctx) {
 												return false
 											}
 											callee := cl.Common().StaticCallee()
-											return callee != nil && baseName(callee.Name()) == "Iterator" && len(cl.Common().Args) > 0 && cl.Common().Args[0] == ssa.Value(f.Params[1])
-										}) {
+											return callee != nil && baseName(callee.Name()) == "Iterator" && len(cl.Common().Args) > 0 && len(f.Params) > 1 && cl.Common().Args[0] == ssa.Value(f.Params[1])
+										}) || eng.DependsOnField(cd, "flow.StorageExecuteContext.GroupByTagKeyIDs") {
 											return true
 										}
 									}
@@ -286,6 +287,22 @@ func runC10(c *eng.Ctx) {
 				}
 			}
 		}
+	})
+
+	// ---- 2b. memory is read BEFORE the snapshot is picked (entries only move memory -> kv store; F9/F11) ------------------------------
+	c.Rule("ORDER", "index{memory read < snapshot}", func() {
+		memoryBeforeSnapshot(c, []orderedReader{
+			{"index.invertedIndex.getSeriesIDs", "index.invertedIndex", invokeOn(".family", "GetSnapshot"), true},
+			{"index.invertedIndex.findSeriesIDsByKeys", "index.invertedIndex", invokeOn(".family", "GetSnapshot"), true},
+			{"index.forwardIndex.findSeriesIDsForTag", "index.forwardIndex", invokeOn(".family", "GetSnapshot"), true},
+			{"index.forwardIndex.GetGroupingContext", "index.forwardIndex", invokeOn(".family", "GetSnapshot"), true},
+			{"index.forwardIndex.getGroupingScanners", "index.forwardIndex", nil, false}, // receives the snapshot: must not read memory at all
+			{kvsT + ".GetValues", kvsT, eng.CallTo(kvsT + ".getSnapshot"), true},
+			{kvsT + ".FindValuesByRegexp", kvsT, eng.CallTo(kvsT + ".getSnapshot"), true},
+			{kvsT + ".findValuesByLike", kvsT, eng.CallTo(kvsT + ".getSnapshot"), true},
+			{kvsT + ".CollectKVs", kvsT, eng.CallTo(kvsT + ".getSnapshot"), true},
+		})
+		c.Observe("indexKVStore.Suggest (metadata suggestions, not a tag filter) still picks the snapshot before reading memory — outside C10, noticed")
 	})
 
 	// ---- cache coherence with the snapshot ---------------------------------------------------------------------------------------------
@@ -329,5 +346,49 @@ func bufferCycleScanners(c *eng.Ctx, f *ssa.Function) {
 	or := p.Sites(f, invokeOn(".seriesIDs", "Or"))
 	for i, o := range or {
 		c.Check(len(sc) > 0 && eng.DominatedBy(f, o.Instr, sc, nil), fmt.Sprintf("series-union-cleared-per-call[%d]", i), o.Instr, f, "the merged series bitmap is cleared before this call's inputs are unioned into it", "")
+	}
+}
+
+// orderedReader: an index read that combines the memory stores of typ with a kv snapshot.
+type orderedReader struct {
+	fn      string
+	typ     string      // struct with the mutable / immutable fields
+	snap    eng.Matcher // where the snapshot is picked (nil: the snapshot is a parameter)
+	wantMem bool        // the function itself (or its helpers, two levels) reads memory
+}
+
+// memoryBeforeSnapshot: in every listed reader no read of the mutable / immutable store (direct, or through helpers up to two
+// call levels) is reachable once the snapshot was picked, and the memory read is followed by the snapshot acquisition.
+// A flush moves entries from the immutable store into a NEWER snapshot and then clears the store; a reader that picks the
+// snapshot first and reads memory afterwards can therefore miss entries that were written before it started.
+func memoryBeforeSnapshot(c *eng.Ctx, readers []orderedReader) {
+	p := c.P
+	for _, r := range readers {
+		f := c.Fn(r.fn)
+		var mem []eng.Site
+		seen := map[ssa.Instruction]bool{}
+		for _, d := range p.DeepSites(f, eng.TouchField(r.typ+".mutable", r.typ+".immutable"), 2, false) {
+			if top := d.Top(); !seen[top] {
+				seen[top] = true
+				mem = append(mem, eng.Site{Fn: f, Instr: top})
+			}
+		}
+		if !r.wantMem {
+			c.Check(len(mem) == 0, r.fn+":no-memory-read-under-a-given-snapshot", nil, f, r.fn+" works on the snapshot its caller picked and does not read the memory stores (its caller read them before picking it)", fmt.Sprintf("%d memory reads", len(mem)))
+			continue
+		}
+		snaps := p.Sites(f, r.snap)
+		c.Check(len(snaps) == 1, r.fn+":one-snapshot", nil, f, r.fn+" picks exactly one snapshot", fmt.Sprintf("%d snapshot acquisitions", len(snaps)))
+		c.Check(len(mem) > 0, r.fn+":reads-memory", nil, f, r.fn+" reads the memory stores", "no read of "+r.typ+".mutable/immutable within two call levels")
+		if len(snaps) != 1 || len(mem) == 0 {
+			continue
+		}
+		for i, m := range mem {
+			_, late := eng.Reaches(f, snaps[0].Instr, []eng.Site{m}, nil)
+			c.Check(!late, fmt.Sprintf("%s:memory-before-snapshot[%d]", r.fn, i), m.Instr, f,
+				"the memory stores are read before the snapshot is picked", "a memory read is reachable after the snapshot was picked")
+		}
+		_, before := eng.Reaches(f, mem[0].Instr, snaps, nil)
+		c.Check(before, r.fn+":memory-read-precedes-snapshot", snaps[0].Instr, f, "the memory read is followed by the snapshot acquisition", "")
 	}
 }
